@@ -52,6 +52,10 @@ CHECKS = {
    text='6.8M byte strings (every opcode path of the decoder trie x prefix sets x every ModRM x SIB grid x data paddings); the 1.6M that lie in the spec domain (one-byte map, integer/system 0F map, x87; no superfluous prefix) are compared field by field: length, raw bytes, mnemonic, operand kinds, registers, base/index/scale, displacement, segment, immediate value, operand size. init_pre_modrm is compared with SDM tables 2-1..2-3 on all 65 792 + 256 entries and the reverse table fd_afs entry by entry. 65 disagreement groups are known findings.',
    note='Trusted: specs/x86dec.py. MMX/SSE opcodes are outside the spec (59% of accepted strings) and are not compared. _dis itself is not proved.',
    ref='5 C01'),
+ 'C10': dict(cat='other', tech='readbs contract proved by VC generation from its AST (pyvc, z3) + static frame obligation on the AST of _dis/get_afs (stream used only through readbs/offset); totality of dis/asm/asm_att as bounded run-time contracts over structured and random inputs',
+   text='Proved for all offsets/lengths: readbs raises IOError iff the request exceeds the buffer, otherwise returns exactly bin[offset:offset+l] and advances the offset; the slice never leaves the sequence. Static: _dis/get_afs touch the stream only via readbs()/offset. Bounded: 1.4M byte strings (structured + random, stream offsets, all truncations) never crash dis, accepted instructions render in both syntaxes; 170k token sequences make asm/asm_att return a list or raise ValueError. 238 crash/rendering classes are known findings.',
+   note='Trusted: z3, pyvc and its opaque-sequence model of bytes; the fuzz populations use fixed internal seeds so that the known-findings list stays exact.',
+   ref='5 C10'),
 }
 NOT_YET = {}
 ALL = ['C%02d' % i for i in range(1, 20)]
@@ -80,7 +84,7 @@ def main():
                   'baseline_off_cmd': BASE_OFF, 'source_commits': [], 'add_only': True},
         'engines': [
             {'name': 'liftvc', 'path': 'liftvc/', 'serves_properties': ['C04', 'C07', 'C08', 'C18', 'C05', 'C06', 'C15', 'C16', 'C11'], 'kind_free_text': 'Engine B: IR denotation den() as z3 bit-vectors; equivalence / refinement queries over all machine states'},
-            {'name': 'pyvc', 'path': 'pyvc/', 'serves_properties': ['C14', 'C05'], 'kind_free_text': 'Engine A: AST -> verification conditions (symbolic execution with callee contracts), z3'},
+            {'name': 'pyvc', 'path': 'pyvc/', 'serves_properties': ['C14', 'C05', 'C10', 'C17'], 'kind_free_text': 'Engine A: AST -> verification conditions (symbolic execution with callee contracts), z3'},
         ],
         'checks': checks,
         'notes': 'single entry point ./vcheck; known findings in known_findings.jsonl; see DESIGN.md',
